@@ -143,6 +143,9 @@ class FrameItem(EFLRItem):
             If direction cannot be determined, it is assigned to None.
         """
 
+        if np.issubdtype(index_data.dtype, np.unsignedinteger):
+            index_data = index_data.astype(np.int64)  # differences of unsigned integers would wrap around
+
         diff = np.diff(index_data)
         diff_unique = np.unique(diff)
 
